@@ -28,6 +28,7 @@ GUARDED_THROW_IDIOMS = {
 
 def declare(rep):
     rep.rule("C17.throw-types", "every throw expression throws a type derived from std::exception", floor=80)
+    rep.rule("C17.what-message", "what() of every exception class of the product returns the c_str() of a std::string member (a NUL-terminated text owned by the exception object): main prints it when it reports the error, so a buffer that may lack its terminator is read past its end", floor=8)
     rep.rule("C17.main-catches", "every statement of main that may throw lies inside try{...}catch(std::exception)", floor=1)
     rep.rule("C17.noexcept-escape", "no noexcept function on the start-up cone lets a callee's exception escape (=> std::terminate)", floor=40)
     rep.rule("C17.nullable-xml", "a pointer returned by a nullable tinyxml2 accessor is tested before dereference / std::string construction", floor=8)
@@ -41,6 +42,7 @@ def run(rep, prog, tier):
         declare(rep)
     X = e2.Exceptions(prog)
     throw_types(rep, prog, X)
+    what_message(rep, prog, X)
     main_catches(rep, prog, X)
     noexcept_escape(rep, prog, X, STARTUP_ROOTS, "C17.noexcept-escape")
     nullable_xml(rep, prog)
@@ -61,6 +63,55 @@ def throw_types(rep, prog, X):
                 else:
                     rep.violation("C17.throw-types", prog, fn, n, "throw of %s" % t,
                                   "%s throws a %s, which is not publicly derived from std::exception (a private or protected base does not make a handler match): main's catch(std::exception const&) and cell_divider::divide_cell's handler do not catch it => std::terminate" % (fn["qn"], t))
+
+
+def what_message(rep, prog, X):
+    for qn_, fns in sorted(prog.by_qn.items()):
+        if not qn_.endswith("::what"):
+            continue
+        cls = qn_[:-6]
+        if cls not in prog.records or not X.derives_from_std_exception(cls) or cls.startswith("std::"):
+            continue
+        fn = fns[0]
+        if "/lib/" in (fn.get("file") or "") or not isinstance(fn.get("body"), dict):
+            continue
+        rets = [r for r in walk(fn["body"]) if r.get("k") == "ReturnStmt" and isinstance(r.get("value"), dict)]
+        for r in rets:
+            v = strip(r["value"])
+            while v.get("k") in ("ImplicitCastExpr", "ParenExpr", "ExprWithCleanups") and v.get("c"):
+                v = strip(v["c"][0])
+            if v.get("k") == "CXXMemberCallExpr" and v.get("callee", "").endswith("::c_str") or (v.get("k") == "CXXMemberCallExpr" and v.get("callee", "").endswith("basic_string<char>::data")):
+                o = strip(call_obj(v) or {})
+                if o.get("k") == "MemberExpr" and (o.get("ref") or {}).get("dk") == "Field":
+                    rep.ok("C17.what-message", prog, fn, r, "%s::what() returns %s.c_str() (std::string member)" % (cls, o["ref"].get("name")))
+                    continue
+                rep.violation("C17.what-message", prog, fn, r, "what() returns the text of a temporary", "%s::what() returns the c_str() of '%s', which is not a data member of the exception: the pointer dangles when main prints it" % (cls, short(o, 50)))
+                continue
+            if v.get("k") == "StringLiteral":
+                rep.ok("C17.what-message", prog, fn, r, "%s::what() returns a string literal" % cls)
+                continue
+            if v.get("k") == "MemberExpr" and (v.get("ref") or {}).get("dk") == "Field" and "char[" in (v.get("t") or "").replace(" ", ""):
+                # a fixed buffer: it must be terminated whatever the length of the message
+                name = v["ref"].get("name")
+                fills = []
+                for m_qn, m_fns in prog.by_qn.items():
+                    if not m_qn.startswith(cls + "::"):
+                        continue
+                    for g in m_fns:
+                        for root in ([g["body"]] if isinstance(g.get("body"), dict) else []):
+                            for c in walk(root):
+                                if is_call(c) and c.get("callee", "").split("::")[-1] in ("strncpy", "memcpy", "strcpy", "snprintf", "sprintf") and call_args(c) and name in render(call_args(c)[0]):
+                                    fills.append((g, c))
+                terminated = any(x.get("k") == "BinaryOperator" and x.get("op") == "=" and name in render(x["c"][0]) and strip(x["c"][0]).get("k") == "ArraySubscriptExpr" and render(strip(x["c"][1])) in ("0", "'\\0'", "(char)0")
+                                 for m_qn, m_fns in prog.by_qn.items() if m_qn.startswith(cls + "::") for g in m_fns if isinstance(g.get("body"), dict) for x in walk(g["body"]))
+                bad = [(g, c) for g, c in fills if c.get("callee", "").split("::")[-1] in ("strncpy", "memcpy") and any(y.get("k") == "UnaryExprOrTypeTraitExpr" for y in walk(call_args(c)[-1])) and not any(y.get("k") == "BinaryOperator" and y.get("op") == "-" for y in walk(call_args(c)[-1]))] + [(g, c) for g, c in fills if c.get("callee", "").split("::")[-1] in ("strcpy", "sprintf")]
+                if bad and not terminated:
+                    g, c = bad[0]
+                    rep.violation("C17.what-message", prog, g, c, "message buffer may lack its terminator",
+                                  "%s fills the fixed buffer %s with '%s' and never stores a terminating NUL: for a message of sizeof(%s) characters or more (the readers quote names taken from the input file in their messages) the buffer is not terminated, and main's e.what() reads past the end of the exception object - an out-of-bounds read triggered by the content of the input file" % (g["qn"], name, short(c, 70), name))
+                    continue
+                raise AnalysisBroken("%s::what() returns the fixed buffer %s: whether it is always NUL-terminated is not decided by this checker" % (cls, name))
+            raise AnalysisBroken("%s::what() returns '%s', a form this checker does not decide" % (cls, short(v, 60)))
 
 
 def main_catches(rep, prog, X):
